@@ -19,7 +19,15 @@
    * SUCCESS path, first step of the tree refinement: on a healthy device, when `adfCreateFile` has linked a new entry into
      an empty hash slot and written its header, the directory on the disk is valid, its slot holds a one-entry chain, the
      entry matches the requested name (the name bytes written are the name bytes read back, proved at byte level), and the
-     library's lookup of that name returns the new block (`C02_created_file_is_linked`, `C02_created_file_is_found`).
+     library's lookup of that name returns the new block (`C02_created_file_is_linked`, `C02_created_file_is_found`);
+     and the second case, a NON-EMPTY chain: the last entry is rewritten with only its link changed, the new entry follows
+     it, every other member and the directory are untouched, and the lookup walks past them to the new block
+     (`C02_created_file_is_appended`, `C02_appended_file_is_found`).
+   * SUCCESS path of removal (its link step): removing the head of a chain leaves the directory valid with the slot
+     starting the chain of the remaining entries; removing an inner or last member rewrites the predecessor with only its
+     link changed; in both cases every other member and (inner case) the directory are untouched
+     (`C02_removed_head_is_unlinked`, `C02_removed_inner_is_unlinked`); with `C02_not_found` the removed name is then not
+     found when no remaining entry carries it, and with `C02_first_match` every remaining entry still is.
   Everything else of C02 — the full tree equality over histories, successful delete/rename/move, moving a directory into
   its own subtree, the DIRCACHE variants, free block counts — is decided on the real code by the history checks against the reference tree model
   (tools/spec.py) and the independent decoder, with the model tied trace-exactly.  (MANIFEST: partial.)
@@ -27,6 +35,8 @@
 import AdfProofs.NamespaceLemmas
 import AdfProofs.FlushLemmas
 import AdfProofs.CreateFound
+import AdfProofs.CreateAppend
+import AdfProofs.RemoveUnlink
 import AdfProofs.RefusalLemmas
 import AdfProofs.WriteReadLemmas
 import AdfProps.C15
@@ -178,5 +188,68 @@ theorem C02_created_file_is_found (c : Cfg) (v : Nat) (par' : Blk) (name : Bytes
 theorem C02_name_written_is_name_matched (intl : Bool) (name : Bytes) (b : Blk) (h : SameNameArea (newEntryBase name) b) :
     nameMatches intl name b :=
   newEntry_nameMatches intl name b h
+
+/-- **A file created at the end of a non-empty chain** (success path, second case): the chain `pre ++ [(m, last)]` of the
+    name's slot holds no entry of that name and its last entry is stored where its self pointer says; sectors of chain
+    members, directory and free blocks are pairwise different where it matters.  Whenever link + header write succeed, the
+    disk holds `pre ++ [(m, last'), (b, hdr)]`: `last'` is `last` with only its link (and checksum / writer fix-ups) changed,
+    `hdr` is valid and matches the name; the directory block and the other members are as they were. -/
+theorem C02_created_file_is_appended (c : Cfg) (v nParent : Nat) (name : Bytes) (parent : Blk) (s : St)
+    (pre : List (Nat × Blk)) (m : Nat) (last : Blk)
+    (hnc : isDIRCACHE (c.vol v).dosType = false) (hf : s.faultAt = none) (hrw : (c.vol v).readOnly = false)
+    (hpar : EntryAt c s.disk v nParent parent)
+    (hch : ChainOn c s.disk v (parent.hash (hashName (useIntl (c.vol v).dosType) name)) (pre ++ [(m, last)]))
+    (hlen : (pre ++ [(m, last)]).length ≤ (c.vol v).lastBlock - (c.vol v).firstBlock + 1)
+    (hno : ∀ e ∈ pre ++ [(m, last)], ¬ nameMatches (useIntl (c.vol v).dosType) name e.2)
+    (hself : last.w F_headerKey = m)
+    (hsmall : ∀ k, bmIsFree (s.mem.vol v).bitmapTable k = true → k < 4294967296)
+    (hvol : ∀ k, bmIsFree (s.mem.vol v).bitmapTable k = true → 2 ≤ k → Readable c v k ∧ vsect c v k ≠ vsect c v nParent ∧
+      ∀ e ∈ pre ++ [(m, last)], vsect c v k ≠ vsect c v e.1)
+    (hdist : ∀ e ∈ pre, vsect c v m ≠ vsect c v e.1) (hparm : vsect c v m ≠ vsect c v nParent) :
+    Post AnyFault c (createFileLink v nParent name) s (fun r s' => r.2.2.isSome = true →
+      ∃ b last' hdr, EntryAt c s'.disk v nParent parent ∧
+        ChainOn c s'.disk v (parent.hash (hashName (useIntl (c.vol v).dosType) name)) (pre ++ [(m, last'), (b, hdr)]) ∧
+        SameNameArea last last' ∧ nameMatches (useIntl (c.vol v).dosType) name hdr ∧ s'.faultAt = none) :=
+  createFileLink_appends c v nParent name parent s pre m last hnc hf hrw hpar hch hlen hno hself hsmall hvol hdist hparm
+
+/-- … and the lookup returns the appended entry -/
+theorem C02_appended_file_is_found (c : Cfg) (v : Nat) (par : Blk) (name : Bytes) (pre : List (Nat × Blk))
+    (m b : Nat) (last last' hdr : Blk) (s : St) (hf : s.faultAt = none)
+    (hch : ChainOn c s.disk v (par.hash (hashName (useIntl (c.vol v).dosType) name)) (pre ++ [(m, last'), (b, hdr)]))
+    (hlen : (pre ++ [(m, last'), (b, hdr)]).length ≤ (c.vol v).lastBlock - (c.vol v).firstBlock + 1)
+    (hno : ∀ e ∈ pre ++ [(m, last)], ¬ nameMatches (useIntl (c.vol v).dosType) name e.2)
+    (hS : SameNameArea last last') (hm : nameMatches (useIntl (c.vol v).dosType) name hdr) :
+    Post (fun _ => False) c (nameToEntryBlk v par name) s (fun r _ => r.1 = some b ∧ r.2.1 = hdr) :=
+  appended_entry_found c v par name pre m b last last' hdr s hf hch hlen hno hS hm
+
+/-- **Removing the head of a hash chain** (link step of `adfRemoveEntry`, healthy device): the directory on the disk is
+    valid, its slot starts the chain of the remaining entries, which are untouched -/
+theorem C02_removed_head_is_unlinked (c : Cfg) (v pSect : Nat) (parent : Blk) (name : Bytes) (n : Nat) (b : Blk)
+    (post : List (Nat × Blk)) (s : St)
+    (hf : s.faultAt = none) (hrw : (c.vol v).readOnly = false) (hpar : EntryAt c s.disk v pSect parent)
+    (hch : ChainOn c s.disk v (parent.hash (hashName (useIntl (c.vol v).dosType) name)) ((n, b) :: post))
+    (hlen : ((n, b) :: post).length ≤ (c.vol v).lastBlock - (c.vol v).firstBlock + 1)
+    (hm : nameMatches (useIntl (c.vol v).dosType) name b)
+    (hdist : ∀ e ∈ post, vsect c v pSect ≠ vsect c v e.1) :
+    Post AnyFault c (removeEntryUnlink v pSect name) s (fun r s' => r.2.isSome = true →
+      ∃ parent', EntryAt c s'.disk v pSect parent' ∧
+        ChainOn c s'.disk v (parent'.hash (hashName (useIntl (c.vol v).dosType) name)) post ∧ s'.faultAt = none) :=
+  removeEntryUnlink_head c v pSect parent name n b post s hf hrw hpar hch hlen hm hdist
+
+/-- **Removing an inner or last member of a hash chain**: the predecessor is rewritten with only its link changed (its name
+    area in particular is untouched), the chain skips the removed entry, directory and other members stay -/
+theorem C02_removed_inner_is_unlinked (c : Cfg) (v pSect : Nat) (parent : Blk) (name : Bytes) (pre : List (Nat × Blk))
+    (p : Nat) (prev : Blk) (n : Nat) (b : Blk) (post : List (Nat × Blk)) (s : St)
+    (hf : s.faultAt = none) (hrw : (c.vol v).readOnly = false) (hpar : EntryAt c s.disk v pSect parent)
+    (hch : ChainOn c s.disk v (parent.hash (hashName (useIntl (c.vol v).dosType) name)) (pre ++ (p, prev) :: (n, b) :: post))
+    (hlen : (pre ++ (p, prev) :: (n, b) :: post).length ≤ (c.vol v).lastBlock - (c.vol v).firstBlock + 1)
+    (hpre : ∀ e ∈ pre ++ [(p, prev)], ¬ nameMatches (useIntl (c.vol v).dosType) name e.2)
+    (hm : nameMatches (useIntl (c.vol v).dosType) name b)
+    (hdist : ∀ e ∈ pre ++ post, vsect c v p ≠ vsect c v e.1) (hpp : vsect c v p ≠ vsect c v pSect) :
+    Post AnyFault c (removeEntryUnlink v pSect name) s (fun r s' => r.2.isSome = true →
+      ∃ prev', EntryAt c s'.disk v pSect parent ∧
+        ChainOn c s'.disk v (parent.hash (hashName (useIntl (c.vol v).dosType) name)) (pre ++ (p, prev') :: post) ∧
+        SameNameArea prev prev' ∧ s'.faultAt = none) :=
+  removeEntryUnlink_inner c v pSect parent name pre p prev n b post s hf hrw hpar hch hlen hpre hm hdist hpp
 
 end Adf.C02
